@@ -319,6 +319,67 @@ func jsonQuote(r *rand.Rand, s string, escapes bool) (string, bool) {
 	return q, true
 }
 
+var shortEscapes = map[rune]string{'"': `\"`, '\\': `\\`, '/': `\/`, '\b': `\b`, '\f': `\f`, '\n': `\n`, '\r': `\r`, '\t': `\t`}
+
+// jsonSpell writes s as a JSON string token in a random spelling: every
+// character raw, as \uXXXX (either hex case, surrogate pairs above U+FFFF) or,
+// where one exists, as a two-character escape.  The JSON string value is s
+// (s must be valid UTF-8).
+func jsonSpell(r *rand.Rand, s string, rate int) (string, bool) {
+	if !utf8.ValidString(s) {
+		return "", false
+	}
+	var sb strings.Builder
+	sb.WriteByte('"')
+	for _, c := range s {
+		must := c < 0x20 || c == '"' || c == '\\'
+		if !must && r.Intn(rate) != 0 {
+			sb.WriteRune(c)
+			continue
+		}
+		if e, ok := shortEscapes[c]; ok && r.Intn(2) == 0 {
+			sb.WriteString(e)
+			continue
+		}
+		f := `\u%04x`
+		if r.Intn(2) == 0 {
+			f = `\u%04X`
+		}
+		if c >= 0x10000 {
+			c -= 0x10000
+			sb.WriteString(fmt.Sprintf(f, 0xd800+(c>>10)) + fmt.Sprintf(f, 0xdc00+(c&0x3ff)))
+		} else {
+			sb.WriteString(fmt.Sprintf(f, c))
+		}
+	}
+	sb.WriteByte('"')
+	return sb.String(), true
+}
+
+var soupPieces = []string{"1", "0", "5", "-", ".", "%", `\u0031`, `\u002e`, `\u002E`, `\u0025`, `\u00`, `\u12g4`, `\ud83d\ude00`, `\ud83d`, `\ude00`, `\ud83d\u0031`,
+	`\n`, `\/`, `\"`, `\\`, `\'`, `\x`, `\`, `"`, "\n", "\t", " ", "\x00", "\x7f", "\xff", "\xc3\xa9", "\xc3", "\xe2\x82\xac", "\xe2\x82", "\xed\xa0\x80", "\xf0\x9f\x98\x80", "\xf4\x90\x80\x80", "\xc0\xaf", "٣", "null"}
+
+// quotedSoup: a quoted token made of arbitrary pieces, often not a JSON string
+// at all (for the model of the decoder, directly through UnmarshalJSON)
+func quotedSoup(r *rand.Rand) string {
+	var sb strings.Builder
+	sb.WriteByte('"')
+	for n := r.Intn(5); n > 0; n-- {
+		sb.WriteString(soupPieces[r.Intn(len(soupPieces))])
+	}
+	if r.Intn(8) != 0 {
+		sb.WriteByte('"')
+	}
+	if r.Intn(6) == 0 {
+		sb.WriteString([]string{" ", "\n", "\t\r", "x", "\"", ","}[r.Intn(6)])
+	}
+	return sb.String()
+}
+
+// notLiterals: texts that must not be taken for literals or numbers when they
+// come as JSON strings
+var notLiterals = []string{"null", "", "true", "%", "0", "-", "1e2", "NaN"}
+
 func pad(r *rand.Rand, tok string) string {
 	ws := []string{"", "", "", " ", "\n", "\t ", "  "}
 	return ws[r.Intn(len(ws))] + tok + ws[r.Intn(len(ws))]
@@ -368,7 +429,9 @@ func Run(c *core.Ctx) int {
 			}
 		}
 	}
-	for _, s := range []string{"null", " null ", "true", "false", "{}", "[]", "[1]", "{\"a\":1}", "\"\"", "\"null\"", "\"\\u0031\"", "\"1\\u002e5\"", "\"\\\"5\\\"\""} {
+	for _, s := range []string{"null", " null ", "true", "false", "{}", "[]", "[1]", "{\"a\":1}", "\"\"", "\"null\"", "\"\\u0031\"", "\"1\\u002e5\"", "\"\\\"5\\\"\"",
+		`"\u006eull"`, `"\u006e\u0075\u006c\u006c"`, `"n\u0075ll"`, `"\u0031\u0036\u0025"`, `"16\u0025"`, `"\u002D1.5"`, `"1\/2"`, `"1\n"`, `"\ud83d\ude00"`, `"\ud83d"`,
+		`"1" `, "\"1\"\n", `"1`, `"`, `"1"2"`, `"1\"`, `"\u003"`, "\"1\t\"", "\"1\xff\"", `"%"`, `"\u0025"`} {
 		add("jsn", s, "fixed-json")
 		add("pjsn", s, "fixed-json")
 		add("ujs", s, "fixed-json")
@@ -417,6 +480,26 @@ func Run(c *core.Ctx) int {
 				}
 				if q, ok := jsonQuote(r, s+"%", true); ok {
 					add("pjsn", q, "json-escaped")
+				}
+				// the same value in arbitrary spellings, members and near misses,
+				// through encoding/json and directly
+				for _, x := range []string{s, m} {
+					if q, ok := jsonSpell(r, x, 1+r.Intn(4)); ok {
+						add("jsn", pad(r, q), "json-spelled")
+						add("ujs", q, "json-spelled")
+					}
+					if q, ok := jsonSpell(r, x+"%", 1+r.Intn(4)); ok {
+						add("pjsn", pad(r, q), "json-spelled")
+						add("pujs", q, "json-spelled")
+					}
+				}
+				if q, ok := jsonSpell(r, notLiterals[r.Intn(len(notLiterals))], 2); ok {
+					add("jsn", q, "json-spelled-literal")
+					add("pjsn", q, "json-spelled-literal")
+				}
+				soup := quotedSoup(r)
+				for _, op := range []string{"ujs", "pujs", "jsn", "pjsn"} {
+					add(op, soup, "json-soup")
 				}
 			default:
 				if s[0] != '-' || len(s) > 1 {
@@ -635,7 +718,7 @@ func absBig(v int64) *big.Int { return new(big.Int).Abs(big.NewInt(v)) }
 
 func mulBig(a *big.Int, k int64) *big.Int { return new(big.Int).Mul(a, big.NewInt(k)) }
 
-const ruleText = "fixed near-miss table, boundary values (0, ±1, ±10^k, 10^k±1, 2^52, 2^53, ±(2^63-1), ±2^63) written with 0..20 decimals, grammar members with 1..40 digit runs, one and two single-character mutations (insert/delete/replace with + - . e E % space , _ non-ASCII digits NUL quote newline), random byte strings incl. invalid UTF-8, JSON tokens (bare numbers, quoted, escaped, padded, null/true/objects) through encoding/json and directly through UnmarshalJSON/UnmarshalText; written texts for boundary and random int64 values at exponents 0..18 (percentages 0..20); non-trivial = pattern member or accepted input or a written text; distinct by operation and input"
+const ruleText = "fixed near-miss table, boundary values (0, ±1, ±10^k, 10^k±1, 2^52, 2^53, ±(2^63-1), ±2^63) written with 0..20 decimals, grammar members with 1..40 digit runs, one and two single-character mutations (insert/delete/replace with + - . e E % space , _ non-ASCII digits NUL quote newline), random byte strings incl. invalid UTF-8, JSON tokens (bare numbers, quoted, one or all characters escaped in either hex case or as two-character escapes, surrogate pairs, padded, null/true/objects, the strings \"null\" and \"\", malformed quoted tokens with bad escapes / raw control bytes / invalid UTF-8 / trailing text) through encoding/json and directly through UnmarshalJSON/UnmarshalText; written texts for boundary and random int64 values at exponents 0..18 (percentages 0..20); non-trivial = pattern member or accepted input or a written text; distinct by operation and input"
 
 func runCases(c *core.Ctx, cases []tcase) int {
 	o, err := newOracle(c.Repo)
@@ -778,9 +861,9 @@ func modelVsGo(c *core.Ctx, t tcase, g goRes, mr mresp) {
 // amount reading: AmountFromString / UnmarshalText / UnmarshalJSON called directly on text
 func judgeAmountRead(c *core.Ctx, o *oracle, t tcase, text string, g goRes, mr mresp, unmarshal bool) {
 	if unmarshal {
-		// raw bytes handed to Unmarshal*: "null" is the documented no-op, quotes are
-		// stripped by UnmarshalJSON: only the model is compared here, the property is
-		// judged on the afs and jsn forms
+		// raw bytes handed to Unmarshal*: the bare "null" is the documented no-op, a
+		// quoted value is decoded as a JSON string by UnmarshalJSON: only the model is
+		// compared here, the property is judged on the afs and jsn forms
 		c.Eval(t.Op+" "+t.Hex, g.ok)
 		if text == "null" && g.ok && (g.v != cur.Value() || g.e != cur.Exp()) {
 			c.Fail("", "UnmarshalText(\"null\") altered the receiver", t)
@@ -962,28 +1045,20 @@ func judgeJSON(c *core.Ctx, o *oracle, t tcase, g goRes, mr mresp, jr *mresp, pc
 			return
 		}
 		clean := true
+		// a JSON string is judged by its decoded value, however it is spelled (a
+		// rejected escaped member or an accepted string "null" is a violation like
+		// any other); an accepted empty string would be the percentage-empty-text
+		// leniency reaching JSON, which the code refuses
+		if kind == "string" && hasEscape {
+			c.Count("json:string-with-escape", 1)
+		}
 		if pct {
-			// classification of the JSON forms
-			if kind == "string" && content == "null" && g.ok {
-				c.Fail("quoted-null-string", "the JSON string \"null\" is accepted as a percentage (no-op)", t)
-				return
-			}
-			want := o.pctRe.MatchString(content) && fits(strings.TrimSuffix(content, "%"))
-			if kind == "string" && hasEscape && want && !g.ok {
-				c.Fail("quoted-json-escape", fmt.Sprintf("JSON string %s (value %q, a fitting pattern member) is rejected: escapes are not decoded", t.Text, content), t)
+			if kind == "string" && content == "" && g.ok {
+				c.Fail("", "the empty JSON string is accepted as a percentage", t)
 				return
 			}
 			clean = judgePctText(c, o, t, content, g, *jr, "json.Unmarshal into num.Percentage")
 		} else {
-			if kind == "string" && content == "null" && g.ok {
-				c.Fail("quoted-null-string", "the JSON string \"null\" is accepted as an amount (no-op)", t)
-				return
-			}
-			want := o.amountRe.MatchString(content) && fits(content)
-			if kind == "string" && hasEscape && want && !g.ok {
-				c.Fail("quoted-json-escape", fmt.Sprintf("JSON string %s (value %q, a fitting pattern member) is rejected: escapes are not decoded", t.Text, content), t)
-				return
-			}
 			clean = judgeAmountJSONContent(c, o, t, content, g, *jr)
 		}
 		if !clean {
